@@ -642,4 +642,64 @@ def r11_8(ctx: Ctx) -> RuleResult:
     return r9_6(ctx, "R11.8")
 
 
-RULES = [r11_1, r11_2, r11_3, r11_4, r11_5, r11_6, r11_7, r11_8]
+def r11_9(ctx: Ctx) -> RuleResult:
+    """An array or object document given as JSON text, or as a readable file, is the parsed value: `load_data` is
+    executed abstractly on texts in the spellings JSON allows (blank space before and after the value, nesting,
+    either kind of container) and on a model file that yields the same texts; the result must be what the JSON
+    grammar says the text denotes.  A parsed value is handed back as it is."""
+    import json as _json
+
+    from sa.peval import UNKNOWN
+
+    from .model import RAISES
+    from .model import MObj
+    from .model import Model
+
+    rr = RuleResult("R11.9", "JSON text and files are decoded to the value they denote", floor=20)
+    fn = ctx.repo.require_func("jsonpath._data.load_data")
+    texts = ['[1, 2]', '{"a": 1}', ' [1]', '\n{"a": [1, {"b": null}]}', '{"a":1} ', '\t[ ]\r\n', '[]', '{}', '  {  }  ', '[[1],[2]]',
+             '[true, false, null, 1.5, "x"]', '{"\u00e9": "\u00e9"}']
+
+    class _File(MObj):
+        def __init__(self, model: Model, text: str) -> None:
+            super().__init__(model, "$file", {})
+            self.text = text
+
+        def peval_isinstance(self, class_names: List[str]) -> Optional[bool]:
+            return "IOBase" in class_names or "TextIOBase" in class_names
+
+        def peval_getattr(self, name: str) -> object:
+            return UNKNOWN
+
+        def peval_call(self, method: str, args: List[object], kwargs: Dict[str, object]) -> object:
+            return self.text if method == "read" and not args else UNKNOWN
+
+    for text in texts:
+        want = _json.loads(text)
+        for how in ("text", "file"):
+            model = Model(ctx, "R11.9")
+            model.whole_bodies = True
+            got = model.call_function(fn, [text if how == "text" else _File(model, text)])
+            if got is UNKNOWN:
+                raise AnalysisError(f"R11.9: what load_data returns for the {how} {text!r} cannot be determined")
+            if got is RAISES:
+                rr.bad(fn, fn.node, f"load_data refuses the JSON {how} {text!r}", construct=f"load_data({how} {text!r}) raises")
+            elif got == want and type(got) is type(want):
+                rr.ok(fn.loc(), f"{how} {text!r} -> {want!r}")
+            else:
+                rr.bad(fn, fn.node, f"the document given as the JSON {how} {text!r} is evaluated as {got!r}, not as the value {want!r} it denotes",
+                       construct=f"load_data({how} {text!r}) -> {got!r}")
+    for value in ([1, 2], {"a": 1}, (), {}):
+        model = Model(ctx, "R11.9")
+        model.whole_bodies = True
+        got = model.call_function(fn, [value])
+        if got is value or (got == value and type(got) is type(value)):
+            rr.ok(fn.loc(), f"parsed value {value!r} is handed back")
+        elif got is UNKNOWN:
+            raise AnalysisError(f"R11.9: what load_data returns for the value {value!r} cannot be determined")
+        else:
+            rr.bad(fn, fn.node, f"load_data turns the parsed value {value!r} into {'an exception' if got is RAISES else repr(got)}", construct=f"load_data({value!r})")
+    return rr
+
+
+RULES = [r11_1, r11_2, r11_3, r11_4, r11_5, r11_6, r11_7, r11_8, r11_9]
